@@ -27,7 +27,7 @@ func verbStream(r *rng, maxN int) []record {
 				continue
 			}
 			seen[k] = true
-			v := r.pick([]string{"1", "2", "3", "pan", "wye", "", "0x1", "1.0", "a,b", "-5", "10"})
+			v := r.pick([]string{"1", "2", "3", "pan", "wye", "", "0x1", "1.0", "a,b", "-5", "10", "x,y", "x", "y,z", "z", "q\\", "q"})
 			rec = append(rec, field{k, v})
 		}
 		rs = append(rs, rec)
